@@ -326,6 +326,24 @@ def hyp_settings(max_examples, shrink=True, **kw):
     )
 
 
+def _violation_in(exc):
+    """A Violation buried in Hypothesis' Flaky / exception-group reports (a failure that did not
+    repeat on Hypothesis' own replay - timing-dependent cases such as real pipes)."""
+    seen = set()
+    stack = [exc]
+    while stack:
+        e = stack.pop()
+        if id(e) in seen or e is None:
+            continue
+        seen.add(id(e))
+        if isinstance(e, Violation):
+            return e
+        stack.extend(getattr(e, "exceptions", ()) or ())
+        stack.append(e.__cause__)
+        stack.append(e.__context__)
+    return None
+
+
 def hyp_run(mod, strategy, rec, seed, max_examples, shrink=True):
     """Drive mod.check_case with cases drawn from `strategy`."""
     import hypothesis
@@ -340,6 +358,12 @@ def hyp_run(mod, strategy, rec, seed, max_examples, shrink=True):
     try:
         prop()
     except Violation as v:
+        rec.failures.append((v.case, v.msg))
+    except Exception as exc:  # noqa: BLE001
+        v = _violation_in(exc)
+        if v is None:
+            raise
+        rec.extra["flaky_failures"] += 1
         rec.failures.append((v.case, v.msg))
 
 
@@ -357,7 +381,12 @@ def hyp_run_machine(mod, machine_cls, rec, seed, max_examples, steps, shrink=Tru
                 max_examples, shrink, stateful_step_count=steps
             ),
         )
-    except Violation as v:
+    except Exception as exc:  # noqa: BLE001
+        v = exc if isinstance(exc, Violation) else _violation_in(exc)
+        if v is None:
+            raise
+        if not isinstance(exc, Violation):
+            rec.extra["flaky_failures"] += 1
         k = match_known(mod, v.case, v.msg)
         if k is not None:
             # a machine cannot swallow and go on mid-history; count it
